@@ -240,7 +240,7 @@ def textgrid_model(self, e, st, spec):
         self.ev(arg, st, spec)
         self.used_models.add(TRUSTED_TG)
         interval = Rec("Interval", {"minTime": V.fresh("mn", V.R), "maxTime": V.fresh("mx", V.R),
-                                    "mark": Opt(V.fresh("nomark", V.B), V.fresh("mark", V.R))})
+                                    "mark": Opt(V.fresh("nomark", V.B), V.fresh("mark", V.R), empty_text=True)})
         ivs = SList(V.fresh("niv", V.I), Lifted.fresh(interval, "ivs"))
         tiers = SList(V.fresh("ntiers", V.I), Lifted.fresh(V.Tup([V.fresh("tname", V.R), ivs]), "tg"))
         first = z3.Function(V.fresh_name("first_tier"), V.R, V.I)
